@@ -672,6 +672,10 @@ func runC08(ctx *Ctx) error {
 	if err := corrSchemaOrder(ctx, ctx.N(1500, 20000)); err != nil {
 		return err
 	}
+	// the struct tag of a member: GenFieldsFromProperties vs Model/FieldTags.lean (any extra-tag map)
+	if err := corrFieldTags(ctx, ctx.N(2500, 30000)); err != nil {
+		return err
+	}
 	frs, err := c08FieldRows()
 	if err != nil {
 		return err
